@@ -777,7 +777,7 @@ K_PMODEL = "cgns_f.F90:cg_particle_model_read_f:ModelLabel-never-passed-to-C"
 K_PBUF = "cgns_f.F90:particle-read-procedures:C-buffer-sized-from-callers-variable"
 PBUF_OPS = ("particle_read", "pcoord_node_read", "pcoord_info", "psol_info", "pfield_info", "piter_read")
 # the known-divergence predicates below are DISABLED per key once the repair is in /repo (set to False by the lead's word)
-KNOWN_ACTIVE = {K_FAMNAME: True, K_NODEFAM: True, K_PTSET_D: True, K_CONFIG: True, K_PMODEL: True, K_PBUF: True}
+KNOWN_ACTIVE = {K_FAMNAME: False, K_NODEFAM: False, K_PTSET_D: False, K_CONFIG: False, K_PMODEL: False, K_PBUF: False}    # all repaired (9418046 ... 763a68d)
 
 
 def known_crash(next_op, outcome):
@@ -1020,9 +1020,7 @@ def run_extra(ck, standalone=False):
     known_static = {"cg_bcdataset_info_f"}
     mbad, merr = coq_mp_bad_rows(ck.work)
     ex["rows_failing_mp_ok"] = mbad if mbad is not None else "could not be evaluated: %s" % merr
-    MP_KNOWN = {"cg_coord_id_f", "cg_discrete_ptset_write_f", "cg_family_name_read_f", "cg_node_family_name_read_f", "cg_particle_read_f",
-                "cg_particle_coord_node_read_f", "cg_particle_coord_info_f", "cg_particle_sol_info_f", "cg_particle_field_info_f", "cg_piter_read_f",
-                "cg_particle_model_read_f"}
+    MP_KNOWN = set()             # FtocMod.mp_known is empty since the repairs 9418046, 26cde09, f901b55, 763a68d
     new_bad = [b for b in (bad or []) if b not in known_static] + [b for b in (mbad or []) if b not in MP_KNOWN]
     ex["static_findings"] = [{"row": b, "listed_in": "FtocAbi.abi_known"} for b in (bad or []) if b in known_static]
     ex["goto_terminator_tests_not_of_the_repaired_shape"] = [k for k, v in (info.get("goto_terminator_tests") or {}).items()
